@@ -147,6 +147,128 @@ theorem next_up_bit_exact_f32 (lib : Libm) (x : Nat) (m : Nat) (e : Int) (dx : d
   rw [hfm] at this
   simpa using this
 
+/-- **On the regenerated program** (f16 instance):
+for positive normal x = k·2^e the traced `next(x, up=True)` evaluates, over ℚ with any
+round-to-nearest for binary16's precision, to the successor (k+1)·2^e. -/
+theorem next_up_generated_f16 (r : ℚ → ℚ) (q : QFmt) (hq : q.p = 11) (hr : IsRN q r) (k e : ℤ)
+    (hk1 : 2 ^ (q.p - 1) ≤ k) (hk2 : k < 2 ^ q.p) (he : q.emin ≤ e) :
+    next_up_f16.evalQ r [(k : ℚ) * 2 ^ e] = some [((k : ℚ) + 1) * 2 ^ e] ∧
+    next_down_f16.evalQ r [-((k : ℚ) * 2 ^ e)] = some [-(((k : ℚ) + 1) * 2 ^ e)] := by
+  have t := ties_next
+  have tu : next_up_f16.nodes = nextProg binary16 true ∧ next_up_f16.outs = [6] := by
+    have := t.1 next_up_f16 (by simp)
+    have hf : next_up_f16.fmt = binary16 := by decide
+    rw [hf] at this; exact this
+  have td : next_down_f16.nodes = nextProg binary16 false ∧ next_down_f16.outs = [6] := by
+    have := t.2.1 next_down_f16 (by simp)
+    have hf : next_down_f16.fmt = binary16 := by decide
+    rw [hf] at this; exact this
+  have hfu : next_up_f16.fmt = binary16 := by decide
+  have hfd : next_down_f16.fmt = binary16 := by decide
+  have hc : (decode binary16 (cNextBits binary16)).toRat? = some (2047 / 2048) := next_constant_value.1
+  have hc0 : (2047 / 2048 : ℚ) ≠ 0 := by norm_num
+  have hcq : (2047 / 2048 : ℚ) = 1 - 1 / 2 ^ q.p := by rw [hq]; norm_num
+  have hexp : binary16.expMax ≠ 0 := by decide
+  have hxpos : (0 : ℚ) < (k : ℚ) * 2 ^ e := by
+    have : (0 : ℤ) < 2 ^ (q.p - 1) := by positivity
+    have hk : (0 : ℚ) < k := by exact_mod_cast lt_of_lt_of_le this hk1
+    have := two_zpow_pos e
+    positivity
+  constructor
+  · unfold Prog.evalQ
+    rw [tu.1, tu.2, hfu, NextProg.evalQ_nextProg binary16 binary16 r _ _ true hc hc0 hexp]
+    simp only [if_true, hxpos]
+    rw [hcq, next_up_pos hr hk1 hk2 he]
+  · unfold Prog.evalQ
+    rw [td.1, td.2, hfd, NextProg.evalQ_nextProg binary16 binary16 r _ _ false hc hc0 hexp]
+    have : -((k : ℚ) * 2 ^ e) < 0 := by linarith
+    simp only [Bool.false_eq_true, if_false, this, if_true]
+    rw [hcq, next_down_neg hr hk1 hk2 he]
+
+/-- **`next(x, up=True)` on BIT PATTERNS** (f16): for every pattern x of a positive normal number
+m·2^e, whenever the run is defined and its float nodes (x/c and x·c are both computed) are finite, the
+softfloat returns a finite pattern whose value is (m+1)·2^e — the successor of x.  Through the
+refinement theorem (`Refine.refines`) from `next_up_generated_f16`. -/
+theorem next_up_bit_exact_f16 (lib : Libm) (x : Nat) (m : Nat) (e : Int) (dx : decode binary16 x = .fin false m e)
+    (nm : 2 ^ 10 ≤ m) (env : Array Nat) (he : evalNodes binary16 lib [x] next_up_f16.nodes #[] = some env)
+    (hfin : ∀ (i : Nat) (v : Nat), env[i]? = some v → nextKinds[i]? = some false → isFiniteBits binary16 v = true)
+    (o : Nat) (ho : next_up_f16.eval lib [x] = some [o]) :
+    isFiniteBits binary16 o = true ∧ toQ binary16 o = some (((m : ℚ) + 1) * 2 ^ e) := by
+  have hf : WF binary16 := ⟨by decide, by decide⟩
+  obtain ⟨b1, b2⟩ := decode_bounds binary16 hf x false m e dx
+  have hk : kindsOf next_up_f16.nodes [] = some nextKinds := by decide +kernel
+  have hins := insRel1 (finite_of_decode _ _ _ _ _ dx) (toQ_fin _ x false m e dx)
+  have hv : valQ false m e = ((m : ℤ) : ℚ) * 2 ^ e := by simp [valQ]
+  rw [hv] at hins
+  have hq := (next_up_generated_f16 (rne (qf binary16 hf.hp)) (qf binary16 hf.hp) rfl (isRN_rne _) (m : ℤ) e
+    (by exact_mod_cast nm) (by exact_mod_cast b1) b2).1
+  have hfm : next_up_f16.fmt = binary16 := by decide
+  have := transfer1 next_up_f16 (by rw [hfm]; exact hf) nextKinds hk lib [x] _ (by rw [hfm]; exact hins) env (by rw [hfm]; exact he)
+    (by rw [hfm]; exact hfin) 6 (by decide) (by decide) o ho _ hq
+  rw [hfm] at this
+  simpa using this
+
+/-- **On the regenerated program** (f64 instance):
+for positive normal x = k·2^e the traced `next(x, up=True)` evaluates, over ℚ with any
+round-to-nearest for binary64's precision, to the successor (k+1)·2^e. -/
+theorem next_up_generated_f64 (r : ℚ → ℚ) (q : QFmt) (hq : q.p = 53) (hr : IsRN q r) (k e : ℤ)
+    (hk1 : 2 ^ (q.p - 1) ≤ k) (hk2 : k < 2 ^ q.p) (he : q.emin ≤ e) :
+    next_up_f64.evalQ r [(k : ℚ) * 2 ^ e] = some [((k : ℚ) + 1) * 2 ^ e] ∧
+    next_down_f64.evalQ r [-((k : ℚ) * 2 ^ e)] = some [-(((k : ℚ) + 1) * 2 ^ e)] := by
+  have t := ties_next
+  have tu : next_up_f64.nodes = nextProg binary64 true ∧ next_up_f64.outs = [6] := by
+    have := t.1 next_up_f64 (by simp)
+    have hf : next_up_f64.fmt = binary64 := by decide
+    rw [hf] at this; exact this
+  have td : next_down_f64.nodes = nextProg binary64 false ∧ next_down_f64.outs = [6] := by
+    have := t.2.1 next_down_f64 (by simp)
+    have hf : next_down_f64.fmt = binary64 := by decide
+    rw [hf] at this; exact this
+  have hfu : next_up_f64.fmt = binary64 := by decide
+  have hfd : next_down_f64.fmt = binary64 := by decide
+  have hc : (decode binary64 (cNextBits binary64)).toRat? = some (9007199254740991 / 9007199254740992) := next_constant_value.2.2
+  have hc0 : (9007199254740991 / 9007199254740992 : ℚ) ≠ 0 := by norm_num
+  have hcq : (9007199254740991 / 9007199254740992 : ℚ) = 1 - 1 / 2 ^ q.p := by rw [hq]; norm_num
+  have hexp : binary64.expMax ≠ 0 := by decide
+  have hxpos : (0 : ℚ) < (k : ℚ) * 2 ^ e := by
+    have : (0 : ℤ) < 2 ^ (q.p - 1) := by positivity
+    have hk : (0 : ℚ) < k := by exact_mod_cast lt_of_lt_of_le this hk1
+    have := two_zpow_pos e
+    positivity
+  constructor
+  · unfold Prog.evalQ
+    rw [tu.1, tu.2, hfu, NextProg.evalQ_nextProg binary64 binary64 r _ _ true hc hc0 hexp]
+    simp only [if_true, hxpos]
+    rw [hcq, next_up_pos hr hk1 hk2 he]
+  · unfold Prog.evalQ
+    rw [td.1, td.2, hfd, NextProg.evalQ_nextProg binary64 binary64 r _ _ false hc hc0 hexp]
+    have : -((k : ℚ) * 2 ^ e) < 0 := by linarith
+    simp only [Bool.false_eq_true, if_false, this, if_true]
+    rw [hcq, next_down_neg hr hk1 hk2 he]
+
+/-- **`next(x, up=True)` on BIT PATTERNS** (f64): for every pattern x of a positive normal number
+m·2^e, whenever the run is defined and its float nodes (x/c and x·c are both computed) are finite, the
+softfloat returns a finite pattern whose value is (m+1)·2^e — the successor of x.  Through the
+refinement theorem (`Refine.refines`) from `next_up_generated_f64`. -/
+theorem next_up_bit_exact_f64 (lib : Libm) (x : Nat) (m : Nat) (e : Int) (dx : decode binary64 x = .fin false m e)
+    (nm : 2 ^ 52 ≤ m) (env : Array Nat) (he : evalNodes binary64 lib [x] next_up_f64.nodes #[] = some env)
+    (hfin : ∀ (i : Nat) (v : Nat), env[i]? = some v → nextKinds[i]? = some false → isFiniteBits binary64 v = true)
+    (o : Nat) (ho : next_up_f64.eval lib [x] = some [o]) :
+    isFiniteBits binary64 o = true ∧ toQ binary64 o = some (((m : ℚ) + 1) * 2 ^ e) := by
+  have hf : WF binary64 := ⟨by decide, by decide⟩
+  obtain ⟨b1, b2⟩ := decode_bounds binary64 hf x false m e dx
+  have hk : kindsOf next_up_f64.nodes [] = some nextKinds := by decide +kernel
+  have hins := insRel1 (finite_of_decode _ _ _ _ _ dx) (toQ_fin _ x false m e dx)
+  have hv : valQ false m e = ((m : ℤ) : ℚ) * 2 ^ e := by simp [valQ]
+  rw [hv] at hins
+  have hq := (next_up_generated_f64 (rne (qf binary64 hf.hp)) (qf binary64 hf.hp) rfl (isRN_rne _) (m : ℤ) e
+    (by exact_mod_cast nm) (by exact_mod_cast b1) b2).1
+  have hfm : next_up_f64.fmt = binary64 := by decide
+  have := transfer1 next_up_f64 (by rw [hfm]; exact hf) nextKinds hk lib [x] _ (by rw [hfm]; exact hins) env (by rw [hfm]; exact he)
+    (by rw [hfm]; exact hfin) 6 (by decide) (by decide) o ho _ hq
+  rw [hfm] at this
+  simpa using this
+
 theorem g32a : FAVerif.FP.gt ⟨24, 8⟩ 2139095039 2139095040 = false := by decide +kernel
 theorem g32b : FAVerif.FP.gt ⟨24, 8⟩ 2139095039 2123789977 = true := by decide +kernel
 
@@ -195,6 +317,129 @@ theorem is_power_of_two_bit_exact_f32 (lib : Libm) (x : Nat) (s : Bool) (m : Nat
   rw [hP, hQ]
   have key := is_power_of_two_all_precisions (qf binary32 hf.hp) r hrn 23 rfl (m : ℤ) e (by exact_mod_cast nm) (by exact_mod_cast b1)
     (by show binary32.emin ≤ e + ((23 : ℕ) : ℤ); omega)
+  apply decide_eq_decide.mpr
+  cases s
+  · have hv : valQ false m e = ((m : ℤ) : ℚ) * 2 ^ e := by simp [valQ]
+    rw [hv]
+    have := key.1
+    constructor
+    · intro h; have := this.mp h; exact_mod_cast this
+    · intro h; exact this.mpr (by exact_mod_cast h)
+  · have hv : valQ true m e = -(((m : ℤ) : ℚ) * 2 ^ e) := by simp [valQ]
+    rw [hv]
+    have := key.2
+    constructor
+    · intro h; have := this.mp h; exact_mod_cast this
+    · intro h; exact this.mpr (by exact_mod_cast h)
+
+theorem g16 : FAVerif.FP.gt ⟨11, 5⟩ 31743 31744 = false := by decide +kernel
+theorem g64a : FAVerif.FP.gt ⟨53, 11⟩ 9218868437227405311 9214871658872686752 = true := by decide +kernel
+
+/-- the traced (dtype-agnostic) `is_power_of_two` on float16, for every input pattern: its dispatch on `largest`
+folds to the float16 branch  D == x  with  D = P·x − Q·x,  P = 2^10 + 1,  Q = 2^10 -/
+theorem is_power_of_two_shape_f16 (lib : Libm) (x : Nat) :
+    is_power_of_two_f16.eval lib [x] =
+      some [b2n (FAVerif.FP.eq binary16 (FAVerif.FP.sub binary16 (FAVerif.FP.mul binary16 25601 x) (FAVerif.FP.mul binary16 25600 x)) x)] := by
+  simp [Prog.eval, is_power_of_two_f16, evalNodes, evalNode, g16, binary16]
+  simp [b2n]
+
+/-- **`is_power_of_two` is exact on BIT PATTERNS (float16)**: for every pattern x of a normal number ±m·2^e
+(2^10 ≤ m < 2^11), whenever the three arithmetic results are finite, the traced program returns 1 if m = 2^10
+(x is a power of two) and 0 otherwise.  Chain: `is_power_of_two_shape_f16`, correct rounding of the softfloat
+mul/sub, comparison of patterns = comparison of values, `is_power_of_two_all_precisions`. -/
+theorem is_power_of_two_bit_exact_f16 (lib : Libm) (x : Nat) (s : Bool) (m : Nat) (e : Int)
+    (dx : decode binary16 x = .fin s m e) (nm : 2 ^ 10 ≤ m)
+    (fL : isFiniteBits binary16 (FAVerif.FP.mul binary16 25601 x) = true)
+    (fR : isFiniteBits binary16 (FAVerif.FP.mul binary16 25600 x) = true)
+    (fD : isFiniteBits binary16 (FAVerif.FP.sub binary16 (FAVerif.FP.mul binary16 25601 x) (FAVerif.FP.mul binary16 25600 x)) = true) :
+    is_power_of_two_f16.eval lib [x] = some [b2n (decide (m = 2 ^ 10))] := by
+  rw [is_power_of_two_shape_f16]
+  have hf : WF binary16 := ⟨by decide, by decide⟩
+  obtain ⟨b1, b2⟩ := decode_bounds binary16 hf x s m e dx
+  have dP : decode binary16 25601 = .fin false 1025 0 := by decide +kernel
+  have dQ : decode binary16 25600 = .fin false 1024 0 := by decide +kernel
+  set r := rne (qf binary16 hf.hp) with hr
+  have hrn : IsRN (qf binary16 hf.hp) r := isRN_rne _
+  have vL := mul_correct binary16 hf _ x false s 1025 m 0 e dP dx fL
+  have vR := mul_correct binary16 hf _ x false s 1024 m 0 e dQ dx fR
+  obtain ⟨sL, mL, eL, dL⟩ := finite_decode binary16 _ fL
+  obtain ⟨sR, mR, eR, dR⟩ := finite_decode binary16 _ fR
+  have eL' : valQ sL mL eL = r (valQ false 1025 0 * valQ s m e) := by
+    have := toQ_fin binary16 _ sL mL eL dL; rw [vL] at this; exact (Option.some.inj this).symm
+  have eR' : valQ sR mR eR = r (valQ false 1024 0 * valQ s m e) := by
+    have := toQ_fin binary16 _ sR mR eR dR; rw [vR] at this; exact (Option.some.inj this).symm
+  have vD := sub_correct binary16 hf _ _ sL sR mL mR eL eR dL dR fD
+  rw [eL', eR'] at vD
+  have fx := finite_of_decode binary16 x s m e dx
+  have hev := eq_val hf fD fx vD (toQ_fin binary16 x s m e dx)
+  rw [hev]
+  congr 3
+  -- the ℚ-level theorem
+  have hP : valQ false 1025 0 = 2 ^ 10 + 1 := by simp [valQ]; norm_num
+  have hQ : valQ false 1024 0 = 2 ^ 10 := by simp [valQ]; norm_num
+  rw [hP, hQ]
+  have key := is_power_of_two_all_precisions (qf binary16 hf.hp) r hrn 10 rfl (m : ℤ) e (by exact_mod_cast nm) (by exact_mod_cast b1)
+    (by show binary16.emin ≤ e + ((10 : ℕ) : ℤ); omega)
+  apply decide_eq_decide.mpr
+  cases s
+  · have hv : valQ false m e = ((m : ℤ) : ℚ) * 2 ^ e := by simp [valQ]
+    rw [hv]
+    have := key.1
+    constructor
+    · intro h; have := this.mp h; exact_mod_cast this
+    · intro h; exact this.mpr (by exact_mod_cast h)
+  · have hv : valQ true m e = -(((m : ℤ) : ℚ) * 2 ^ e) := by simp [valQ]
+    rw [hv]
+    have := key.2
+    constructor
+    · intro h; have := this.mp h; exact_mod_cast this
+    · intro h; exact this.mpr (by exact_mod_cast h)
+
+/-- the traced (dtype-agnostic) `is_power_of_two` on float64, for every input pattern: its dispatch on `largest`
+folds to the float64 branch  D == x  with  D = P·x − Q·x,  P = 2^52 + 1,  Q = 2^52 -/
+theorem is_power_of_two_shape_f64 (lib : Libm) (x : Nat) :
+    is_power_of_two_f64.eval lib [x] =
+      some [b2n (FAVerif.FP.eq binary64 (FAVerif.FP.sub binary64 (FAVerif.FP.mul binary64 4841369599423283201 x) (FAVerif.FP.mul binary64 4841369599423283200 x)) x)] := by
+  simp [Prog.eval, is_power_of_two_f64, evalNodes, evalNode, g64a, binary64]
+  simp [b2n]
+
+/-- **`is_power_of_two` is exact on BIT PATTERNS (float64)**: for every pattern x of a normal number ±m·2^e
+(2^52 ≤ m < 2^53), whenever the three arithmetic results are finite, the traced program returns 1 if m = 2^52
+(x is a power of two) and 0 otherwise.  Chain: `is_power_of_two_shape_f64`, correct rounding of the softfloat
+mul/sub, comparison of patterns = comparison of values, `is_power_of_two_all_precisions`. -/
+theorem is_power_of_two_bit_exact_f64 (lib : Libm) (x : Nat) (s : Bool) (m : Nat) (e : Int)
+    (dx : decode binary64 x = .fin s m e) (nm : 2 ^ 52 ≤ m)
+    (fL : isFiniteBits binary64 (FAVerif.FP.mul binary64 4841369599423283201 x) = true)
+    (fR : isFiniteBits binary64 (FAVerif.FP.mul binary64 4841369599423283200 x) = true)
+    (fD : isFiniteBits binary64 (FAVerif.FP.sub binary64 (FAVerif.FP.mul binary64 4841369599423283201 x) (FAVerif.FP.mul binary64 4841369599423283200 x)) = true) :
+    is_power_of_two_f64.eval lib [x] = some [b2n (decide (m = 2 ^ 52))] := by
+  rw [is_power_of_two_shape_f64]
+  have hf : WF binary64 := ⟨by decide, by decide⟩
+  obtain ⟨b1, b2⟩ := decode_bounds binary64 hf x s m e dx
+  have dP : decode binary64 4841369599423283201 = .fin false 4503599627370497 0 := by decide +kernel
+  have dQ : decode binary64 4841369599423283200 = .fin false 4503599627370496 0 := by decide +kernel
+  set r := rne (qf binary64 hf.hp) with hr
+  have hrn : IsRN (qf binary64 hf.hp) r := isRN_rne _
+  have vL := mul_correct binary64 hf _ x false s 4503599627370497 m 0 e dP dx fL
+  have vR := mul_correct binary64 hf _ x false s 4503599627370496 m 0 e dQ dx fR
+  obtain ⟨sL, mL, eL, dL⟩ := finite_decode binary64 _ fL
+  obtain ⟨sR, mR, eR, dR⟩ := finite_decode binary64 _ fR
+  have eL' : valQ sL mL eL = r (valQ false 4503599627370497 0 * valQ s m e) := by
+    have := toQ_fin binary64 _ sL mL eL dL; rw [vL] at this; exact (Option.some.inj this).symm
+  have eR' : valQ sR mR eR = r (valQ false 4503599627370496 0 * valQ s m e) := by
+    have := toQ_fin binary64 _ sR mR eR dR; rw [vR] at this; exact (Option.some.inj this).symm
+  have vD := sub_correct binary64 hf _ _ sL sR mL mR eL eR dL dR fD
+  rw [eL', eR'] at vD
+  have fx := finite_of_decode binary64 x s m e dx
+  have hev := eq_val hf fD fx vD (toQ_fin binary64 x s m e dx)
+  rw [hev]
+  congr 3
+  -- the ℚ-level theorem
+  have hP : valQ false 4503599627370497 0 = 2 ^ 52 + 1 := by simp [valQ]; norm_num
+  have hQ : valQ false 4503599627370496 0 = 2 ^ 52 := by simp [valQ]; norm_num
+  rw [hP, hQ]
+  have key := is_power_of_two_all_precisions (qf binary64 hf.hp) r hrn 52 rfl (m : ℤ) e (by exact_mod_cast nm) (by exact_mod_cast b1)
+    (by show binary64.emin ≤ e + ((52 : ℕ) : ℤ); omega)
   apply decide_eq_decide.mpr
   cases s
   · have hv : valQ false m e = ((m : ℤ) : ℚ) * 2 ^ e := by simp [valQ]
